@@ -19,7 +19,14 @@ pub fn gen_config(profile: &str, rng: &mut Rng, tier: Tier) -> Config {
 	let mut r = rng.fork("config");
 	let chan_type = *r.pick(&[ChanType::Legacy, ChanType::Anchors, ChanType::ZeroFee]);
 	let n_nodes = match profile {
-		"onionline" => r.range(3, 7) as usize,
+		// one run in 25 is a line of 21 nodes: payments over the longest route that fits (20 hops)
+		"onionline" => {
+			if r.chance(1, 25) {
+				21
+			} else {
+				r.range(3, 7) as usize
+			}
+		},
 		"offchain" => {
 			if r.chance(7, 10) {
 				2
@@ -40,6 +47,10 @@ pub fn gen_config(profile: &str, rng: &mut Rng, tier: Tier) -> Config {
 		nc.fee_base_msat = *r.pick(&[1000, 0, 2500]);
 		nc.fee_prop_millionths = *r.pick(&[0, 100, 10_000]);
 		nc.cltv_delta = *r.pick(&[72, 48, 144]);
+		if n_nodes > 10 {
+			// 19 forwarding hops must stay within the 1008 blocks a route may lock funds for
+			nc.cltv_delta = 48;
+		}
 		match profile {
 			"asyncpersist" => {
 				nc.async_default = r.chance(1, 2);
